@@ -154,6 +154,8 @@ class Cfg:
     def inner_payload(rng, inner):
         if inner == b"json":
             return jdump(rand_json(rng))
+        if inner == b"line":
+            return bytes(rng.choice(b"abc xyz") for _ in range(rng.randint(0, 8)))
         if inner == b"pickle":
             return pickle.dumps(rng.choice([1, "ab", [1, 2], {"k": (1, 2.5)}]))
         return bytes(rng.randrange(256) for _ in range(rng.randint(0, 10)))
@@ -189,6 +191,13 @@ CONFIGS = [
     Cfg("fb-seek1", 7, [16, s2.FB_EXPECTED], [b"fb", b"seek1"], limit=16),
 ]
 BY_NAME = {c.name: c for c in CONFIGS}
+# wrappers over a line serializer (what an empty token / an empty compressed payload reaches)
+EMPTY_INNER_CONFIGS = [
+    Cfg("b64-line", 4, [b"\r\n", 64, 0], [b"b64", b"standard", 0, b"line"], sep=b"\r\n", limit=64),
+    Cfg("b64-checksum-line", 4, [b"\n", 160, 0], [b"b64", b"urlsafe", 1, b"line"], sep=b"\n", limit=160),
+    Cfg("zlib-line", 6, [0, 0], [b"zlib", b"line"]),
+    Cfg("bz2-line", 6, [1, 0], [b"bz2", b"line"]),
+]
 DEBUG_CONFIGS = [c.with_debug() for c in CONFIGS]      # every shipped serializer class here has a debug flag
 
 
@@ -409,8 +418,8 @@ def framing_cases(tier, rng, thorough):
 
 def fuzz_cases(tier, rng, thorough):
     n_rand = 80 if thorough else 30
-    n_mut = 900 if thorough else 240
-    for c0 in CONFIGS:
+    n_mut = 900 if thorough else 200
+    for c0 in CONFIGS + EMPTY_INNER_CONFIGS:
         # (b) random bytes
         for _ in range(n_rand):
             c = c0.with_debug() if rng.random() < 0.4 else c0
@@ -556,6 +565,32 @@ def boundary_cases(tier, rng, thorough):
                                         nontrivial=True)
 
 
+def overrun_tail_cases(tier, rng, thorough):
+    """over-limit frames whose last bytes are drawn from the separator's own alphabet (every combination for short
+    separators): the limit error has to work out which suffix may still be the beginning of a separator, and must
+    return; then the separator and a short frame"""
+    import itertools
+    for c0 in CONFIGS:
+        if c0.sep is None or len(c0.sep) < 2 or c0.family not in s2.HAS_COPY:
+            continue
+        filler = b"b" if c0.family == 0 else b"A"
+        L, sep = c0.limit, c0.sep
+        alphabet = sorted(set(sep)) + [filler[0]]
+        tails = [bytes(x) for x in itertools.product(alphabet, repeat=min(len(sep) - 1, 4))]
+        if len(tails) > (40 if thorough else 16):
+            tails = rng.sample(tails, 40 if thorough else 16)
+        for tail_ in tails:
+            if sep in tail_:
+                continue
+            over = filler * (L + 1) + tail_
+            if sep in over:
+                continue
+            rest = sep + filler * 2 + sep
+            for c in ((c0, c0.with_debug()) if thorough else (c0,)):
+                for ch in ([over + rest], [over, rest], [over[i:i + 1] for i in range(len(over))] + [rest]):
+                    yield _case(c, over, ch, rng.choice([1024, 7]), ["overrun-tail", f"seplen{len(sep)}"], nontrivial=True)
+
+
 def short_start_cases(tier, rng, thorough):
     """separator-framed serializers whose generator starts on fewer bytes than the separator: several valid frames, reads
     cut 1 .. seplen bytes after each separator (so the bytes re-injected for the next frame, or the first read of a
@@ -576,12 +611,38 @@ def short_start_cases(tier, rng, thorough):
                     yield _case(c, frames[0], ch, c.hint(rng), ["short-start", f"seplen{len(c.sep)}"], nontrivial=True)
 
 
+def empty_payload_cases(tier, rng, thorough):
+    """the empty payload through every serializer and every wrapper / inner combination: empty one-shot data and empty
+    datagram, an empty frame on a stream (a lone separator, an empty base64 token, a compressed empty payload)"""
+    for c0 in CONFIGS + EMPTY_INNER_CONFIGS:
+        for c in (c0, c0.with_debug()):
+            f = c.family
+            if f in (0, 1):
+                streams = [c.sep, c.sep + c.sep]
+            elif f == 2:
+                streams = [b"\n", b'""', b"[]{}"]
+            elif f == 4:
+                streams = [c.sep, _b64(b"", bool(c.impl[2]), c.impl[1]) + c.sep, c.sep + _b64(b"", bool(c.impl[2]), c.impl[1]) + c.sep]
+            elif f == 6:
+                comp = zlib.compress if c.impl[0] == b"zlib" else bz2.compress
+                streams = [comp(b""), comp(b"") + comp(b"")]
+            elif f == 7:
+                streams = [b"\x00", b"\x00\x00"]
+            else:
+                streams = [b""]
+            for st in streams:
+                for ch in ([[st]] if len(st) < 2 else [[st], [st[i:i + 1] for i in range(len(st))]]):
+                    yield _case(c, b"", [x for x in ch if x], c.hint(rng), ["empty-payload"], nontrivial=True)
+
+
 def cases(tier, rng, escalate):
     thorough = tier == "thorough" or escalate
     del _YIELDED[:]
     yield from framing_cases(tier, rng, thorough)
     yield from boundary_cases(tier, rng, thorough)
     yield from short_start_cases(tier, rng, thorough)
+    yield from overrun_tail_cases(tier, rng, thorough)
+    yield from empty_payload_cases(tier, rng, thorough)
     yield from fuzz_cases(tier, rng, thorough)
     yield from extreme_cases(tier, rng, thorough)
     yield from f3_cases(tier, rng, thorough)
@@ -732,7 +793,7 @@ def oracle(inp):
                 if stalled:
                     return f"stall: buffered consumer of {name}: {stalled}"
     except s2.WatchdogTimeout:
-        return f"hang: {name} did not answer within {s2.WATCHDOG_S} s"
+        return f"hang: {name} did not answer within {s2.leash(s2.WATCHDOG_S)} s (watchdog)"
     except _Exempt:
         return None
     return None
@@ -818,6 +879,8 @@ def extra(ctx):
             tolerated[sig] = tolerated.get(sig, 0) + 1
             continue
         bad += 1
+        if bad >= 25:
+            break           # the refutation is established; do not replay hundreds of (possibly hanging) cases
         if bad <= 3:
             ctx.problems.append(dict(kind="hypothesis", detail="H_declared/H_progress refuted by execution: " + fail,
                                      input=runner.sx.to_text(c["input"])))
